@@ -1,11 +1,11 @@
 """C06 -- solving (layer B: bounded functional checks against spec-side linear algebra; see checks/alg.py)."""
 from vplib.core import with_canaries
-from checks import alg
+from checks import alg, layer_s
 
 LEVEL = "model_checking"
 META = {"explanation": "bounded functional: one concrete (small) shape per group, every bit pattern of the operands; loop bounds found by unwinding refinement and confirmed by unwinding assertions; compared with spec-side linear algebra (contracts/alg_spec.h) that shares no code with the library",
-        "assumptions": ["_mzd_pluq replaced by the library's own _mzd_pluq_naive (harness-level -D substitution when compiling solve.c)"]}
+        "assumptions": ["orchestration for all shapes and ranks (layer S): shapes, window containment, index ranges of the bit accessors and release of every temporary only -- the algebra is decided on the concrete-rank instances", "_mzd_pluq replaced by the library's own _mzd_pluq_naive (harness-level -D substitution when compiling solve.c)"]}
 
 
 def groups(tier, seed):
-    return with_canaries(alg.c06(tier))
+    return with_canaries(alg.c06(tier)) + with_canaries([g for g in layer_s.solve_groups(["C06", "C07", "C09", "C11"]) if g.function != "mzd_kernel_left_pluq"])
